@@ -161,6 +161,13 @@ theorem balanced_preserves (l r : Tree K V) (k : K) (v : V) (hl : Bal l) (hr : B
   obtain ⟨t, e, b, a, _⟩ := balanced_spec l r k v hl hr h1 h2
   exact ⟨t, e, b, a⟩
 
+/-- within the tolerated imbalance (≤ 2) `balanced` does not rotate at all -/
+theorem map_balanced_no_rotation (l r : Tree K V) (k : K) (v : V) (h1 : height l ≤ height r + 2)
+    (h2 : height r ≤ height l + 2) : balanced l k v r = some (create l k v r) := by
+  have c1 : ¬ height l > height r + 2 := by omega
+  have c2 : ¬ height r > height l + 2 := by omega
+  simp [balanced, c1, c2]
+
 /-- **`insert` refines finite-map update**: on every invariant-satisfying tree, for every total
 order `cmp`, `insert` does not panic, re-establishes the invariant, and the resulting finite map
 is `m[k ↦ v]`. -/
@@ -641,6 +648,39 @@ theorem set_elements_fromList {cmp : E → E → Int} (hc : Lawful cmp) (xs : Li
       ∀ p, p ∈ elements t ↔ p ∈ xs := by
   obtain ⟨t, e, i, m⟩ := set_fromList_refines hc xs
   exact ⟨t, e, by rw [elements_refines]; exact i.2, fun p => by rw [elements_refines]; exact m p⟩
+
+/-! ### The balance predicate's boundary (`lh > rh + 2`) -/
+
+/-- within the tolerated imbalance (≤ 2) `balanced` does not rotate at all -/
+theorem set_balanced_no_rotation (l r : STree E) (v : E) (h1 : height l ≤ height r + 2)
+    (h2 : height r ≤ height l + 2) : balanced l v r = some (unsafeNode l v r) := by
+  have c1 : ¬ height l > height r + 2 := by omega
+  have c2 : ¬ height r > height l + 2 := by omega
+  simp [balanced, c1, c2]
+
+/-- … and it is only ever asked to repair an imbalance of exactly 3 (every caller passes subtrees of
+an invariant-satisfying tree one of which changed its height by at most one), where it cannot
+panic: this is `balanced_spec`.  Rotating already at imbalance 2 is wrong: -/
+def balancedGe (l : STree E) (v : E) (r : STree E) : Option (STree E) :=
+  let lh := height l
+  let rh := height r
+  if lh ≥ rh + 2 then
+    match l with
+    | .node _ lv ll lr =>
+      if height ll ≥ height lr then some (create ll lv (unsafeNode lr v r))
+      else
+        match lr with
+        | .node _ lrv lrl lrr => some (create (unsafeNode ll lv lrl) lrv (unsafeNode lrr v r))
+        | _ => none
+    | _ => none
+  else balanced l v r
+
+/-- the variant with `lh ≥ rh + 2` reaches `Process.panic("Bad tree")` on a balanced two-element
+left subtree that leans right (witness of seeded fault C18f; such a subtree arises after a removal) -/
+theorem set_balanced_boundary_counterexample :
+    ∃ l : STree Int, Bal l ∧ height l = 2 ∧ balancedGe l 9 .empty = none ∧
+      balanced l 9 .empty = some (.node 3 9 l .empty) :=
+  ⟨.node 2 2 .empty (.leaf 3), by simp [Bal]; omega, rfl, by decide, by decide⟩
 
 /-- **`ops_refine` (sets)**: every finite history mixing `insert`, `remove`, `union`,
 `intersection`, `diff`, `filter`, `partition`, `split`, `fromList`, `map` over any number of set registers
